@@ -17,15 +17,15 @@ for f in sorted(glob.glob(os.path.join(V, 'seeded', '*', 'meta.json'))):
     key = 'caught after strengthening' if 'after' in st else ('caught' if st.startswith('caught') else ('undecided' if 'undecided' in st else 'missed'))
     cnt[key] = cnt.get(key, 0) + 1
     rows.append('| %s | %s | %s | %s |' % (m['id'], title.replace('|', '/'), ('**%s**' % st) if key in ('missed', 'undecided') else st, m['failing_obligation'].replace('|', '/')))
-head = '''### 0.8 Seeded changes (`/verif/seeded/<id>-{A..E,H}`)
+head = '''### 0.8 Seeded changes (`/verif/seeded/<id>-{A..F,H,HH}`)
 
 Produced by fresh sub-agents that saw only the property text and their own scratch worktree; each
 compiles, passes the 55 tests and has a demo that fails with the change and passes without. I
 confirmed each (`tools/seedtest.sh` / `tools/seedtest3.sh`), ran the property's check on it, undid it;
 `tools/seed_regress.sh` re-runs all of them against the current contracts on scratch copies
 (`VP_NO_STANDIN=1` for proofs only). Letters: `-A`, `-B` first two rounds (32 changes), `-C`, `-D` third
-round (32), `-E` fourth round (16 breaking) and `-H` fourth round (16 harmless refactorings, listed
-separately below). The titles are the sub-agents' own and may carry their own round/letter labels.
+round (32), `-E` fourth round (16 breaking), `-F` fifth round (16 breaking), `-H` / `-HH` fourth and fifth
+round (16 + 16 harmless refactorings, listed separately below). The titles are the sub-agents' own and may carry their own round/letter labels.
 The bounded stand-in suites were added after the third round, in response to it; "now:" lists what
 the current machinery reports for the same change.
 
@@ -35,7 +35,7 @@ the current machinery reports for the same change.
 summary = '\n\n%d breaking changes: %d caught at once, %d caught only after something was strengthened in response (a contract, a proof anchor, the attribution of in-body failures, or a bounded suite), %d undecided (exit 2), %d missed.\n' % (
     sum(cnt.values()), cnt.get('caught', 0), cnt.get('caught after strengthening', 0), cnt.get('undecided', 0), cnt.get('missed', 0))
 summary += '''
-Harmless refactorings (round 4; each preserves behaviour exactly - same results, errors, requests to the source, memory - and
+Harmless refactorings (rounds 4 and 5; each preserves behaviour exactly - same results, errors, requests to the source, memory - and
 was confirmed so by its author's differential demo). The requirement is that no check raises an alarm:
 
 | seed | refactoring | result | what the proof run said |
